@@ -505,10 +505,7 @@ type engine struct {
 }
 
 func kafkaConfigJSON(cs *Case, addr string) []byte {
-	var topics []string
-	for _, t := range cs.Topics {
-		topics = append(topics, t.Name)
-	}
+	topics := cs.configTopics()
 	m := map[string]any{
 		"brokers":                  []string{addr},
 		"topics":                   topics,
@@ -740,6 +737,10 @@ func (e *engine) collect() {
 	}
 	m.stat["marked_offsets_non_nil_reads"] = atomic.LoadInt64(&markedNonNil)
 	m.stat["processors"] = int64(e.p.VerifProcCount())
+	if e.cs.hasRepeatedTopics() {
+		m.stat["cases_with_a_repeated_topic_in_the_topics_list"]++
+		m.stat["heads_judged_with_a_repeated_topic_in_the_topics_list"] += m.stat["heads_checked_mark"]
+	}
 	if len(e.all) > 0 {
 		var heads []string
 		for k, h := range m.heads {
